@@ -1,2 +1,185 @@
-(** C01 — placeholder while the proofs are being written: the theorem file is filled in by Mailbox/MbInv.v etc. *)
-From Vivid Require Import Mailbox.MbModel.
+(** C01 - the mailbox runs one handler at a time, handles every accepted message exactly once, never
+    loses a wake-up, and does no work when there is nothing it may process.
+
+    Model: Mailbox/MbModel.v - a micro-step machine of internal/mailbox/unbounded_mailbox.go (one step =
+    one atomic operation / queue operation / handler start of one goroutine), any number of client
+    threads (Enqueue of a user or system message, Pause, Resume), processor goroutines created by a
+    successful CAS(status, idle, processing).  [reachable s] = s is the state after SOME schedule of SOME
+    population of client threads, so every theorem below holds for all populations and all interleavings.
+    The model is tied to the real code by lock-step replay (bin/check C01).
+    Derived notions: Mailbox/MbSpec.v, Mailbox/MbSpec2.v.  Statements only; proofs in Mailbox/MbInv.v and
+    Mailbox/MbLive.v. *)
+From Coq Require Import List NArith ZArith Bool Permutation.
+From Vivid Require Import Mailbox.MbModel Mailbox.MbSpec Mailbox.MbSpec2 Mailbox.MbInv Mailbox.MbLive.
+Import ListNotations.
+Local Open Scope Z_scope.
+
+(** ============================ (1) one consumer, one handler at a time ============================ *)
+
+(** the number of threads inside the processing region (from the goroutine's creation / the successful
+    CAS up to and including Store(status, idle)) is exactly 1 when status = processing and 0 when idle *)
+Theorem C01_single_consumer s :
+  reachable s -> count_owner s = (if status s then 1 else 0)%nat.
+Proof. exact (single_consumer s). Qed.
+
+(** two different threads are never both inside the processing region *)
+Theorem C01_one_owner s i j p q :
+  reachable s -> i <> j ->
+  nth_error (thr s) i = Some p -> nth_error (thr s) j = Some q ->
+  owner_pc p = true -> owner_pc q = true -> False.
+Proof. exact (owners_exclusive s i j p q). Qed.
+
+(** in particular two different threads are never both about to run / running the handler *)
+Theorem C01_one_handler s i j p q :
+  reachable s -> i <> j ->
+  nth_error (thr s) i = Some p -> nth_error (thr s) j = Some q ->
+  handling_pc p = true -> handling_pc q = true -> False.
+Proof. exact (handlers_exclusive s i j p q). Qed.
+
+(** a handler invocation lasts from the thread's Handle step to the same thread's next step; after the
+    Handle step the thread is at HSysPop, still inside the processing region, so by [C01_one_owner] no other
+    thread can be at a Handle pc (or pop, or decrement) until this thread moves: invocations never overlap *)
+Theorem C01_handler_stays_owner i s s' p :
+  nth_error (thr s) i = Some p -> handling_pc p = true -> step i s = Some s' ->
+  nth_error (thr s') i = Some HSysPop.
+Proof. exact (after_handle_owner i s s' p). Qed.
+
+(** ============================ (2) every message exactly once ============================ *)
+
+(** accounting: at every moment of every execution each message given to Enqueue is in exactly one place:
+    not yet pushed, in a queue, in the consumer's hands, or handled (the multiset equation counts
+    duplicates of equal ids too) *)
+Theorem C01_exactly_once ths sched :
+  forallb env_pc ths = true ->
+  let s := run sched (init ths) in
+  Permutation (msgs_of ths) (unsent s ++ queued s ++ held s ++ log s).
+Proof. exact (exactly_once ths sched). Qed.
+
+(** hence, with distinct message ids, no message is handled twice ... *)
+Theorem C01_at_most_once ths sched :
+  forallb env_pc ths = true -> NoDup (msgs_of ths) -> NoDup (log (run sched (init ths))).
+Proof. exact (handled_at_most_once ths sched). Qed.
+
+(** ... and nothing is handled that was not sent *)
+Theorem C01_handled_was_sent ths sched e :
+  forallb env_pc ths = true -> In e (log (run sched (init ths))) -> In e (msgs_of ths).
+Proof. exact (handled_was_sent ths sched e). Qed.
+
+(** ============================ (3) the counters ============================ *)
+
+(** num = |user queue| - #(senders between Push and Add) + #(consumer between Pop and Add(-1)); same for systemNum *)
+Theorem C01_counters s :
+  reachable s ->
+  num s = Z.of_nat (length (uq s)) - count (at_sadd false) s + count (at_dec false) s /\
+  sysnum s = Z.of_nat (length (sq s)) - count (at_sadd true) s + count (at_dec true) s.
+Proof. exact (counters s). Qed.
+
+(** ============================ (4) no lost wake-up ============================ *)
+
+(** whenever the mailbox is idle and holds a system message there is a thread that has not yet made its
+    wake-up decision ([sys_cover], Mailbox/MbSpec2.v); whenever it is idle, not paused, and holds a user
+    message there is a [user_cover] thread *)
+Theorem C01_no_lost_wakeup s :
+  reachable s -> status s = false ->
+  (sq s <> [] -> exists i p, nth_error (thr s) i = Some p /\ sys_cover p = true) /\
+  (uq s <> [] -> paused s = false -> exists i p, nth_error (thr s) i = Some p /\ user_cover p = true).
+Proof. exact (no_lost_wakeup s). Qed.
+
+(** consequence: when every goroutine has finished (no step possible) nothing processable is left -
+    every accepted system message was handled and every accepted user message was handled unless the
+    mailbox is paused - with NO later send required; the mailbox is idle, the consumer holds nothing *)
+Theorem C01_terminal s :
+  reachable s -> terminal s ->
+  sq s = [] /\ (uq s = [] \/ paused s = true) /\ status s = false /\ held s = [] /\ unsent s = [].
+Proof. exact (terminal_thm s). Qed.
+
+Theorem C01_resume_drains s :
+  reachable s -> terminal s -> paused s = false -> uq s = [].
+Proof. exact (resume_drains s). Qed.
+
+(** in a terminal state the handled log is, as a multiset, everything that was given to Enqueue minus the
+    user messages still queued in a paused mailbox *)
+Theorem C01_terminal_all_handled ths sched :
+  forallb env_pc ths = true ->
+  let s := run sched (init ths) in
+  terminal s ->
+  Permutation (msgs_of ths) (map (pair false) (uq s) ++ log s) /\ (paused s = false -> uq s = []).
+Proof. exact (terminal_all_handled ths sched). Qed.
+
+(** ============================ (5) no spinning ============================ *)
+
+(** from a state with no client call in progress and nothing the mailbox may process (system queue empty;
+    user queue empty or mailbox paused) at most 11 further steps per live processor goroutine are
+    possible, whatever the schedule: the processors stop *)
+Theorem C01_no_spin s :
+  reachable s -> env_done s -> sq s = [] -> (uq s = [] \/ paused s = true) ->
+  forall sched, (effective_steps sched s <= 11 * processors s)%nat.
+Proof. exact (no_spin s). Qed.
+
+(** ============================ non-vacuity ============================ *)
+
+(** a reachable state with status = processing and two queued user messages *)
+Example C01_ex_processing_two_queued :
+  exists s, reachable s /\ status s = true /\ uq s = [1%N; 2%N] /\ count_owner s = 1%nat.
+Proof.
+  exists (run [0;0;0;0;1;1]%nat (init [SPush false 1%N; SPush false 2%N])). split.
+  - apply reachable_run. reflexivity.
+  - vm_compute. repeat split.
+Qed.
+
+(** a reachable terminal state of a paused mailbox that still holds a user message (Pause(); Enqueue(user 7)):
+    the processor has terminated, the message is left queued, nothing else *)
+Definition ex_paused_sched : list nat := [0;0;1;1;1;1;2;2;2;2;2;2;2]%nat.
+Definition ex_paused : st := run ex_paused_sched (init [PStore; SPush false 7%N]).
+Example C01_ex_terminal_paused :
+  reachable ex_paused /\ terminal ex_paused /\ paused ex_paused = true /\ uq ex_paused = [7%N] /\ log ex_paused = [].
+Proof.
+  split; [unfold ex_paused; apply reachable_run; reflexivity|].
+  split; [|vm_compute; repeat split].
+  intros i. destruct i as [|[|[|[|i]]]]; vm_compute; reflexivity.
+Qed.
+
+(** the same run with the Resume added ends with the message handled *)
+Example C01_ex_resume_drains :
+  let s := run [0;0; 1;1;1;1; 3;3;3;3;3;3;3; 2;2;2; 4;4;4;4;4;4;4;4;4;4;4;4]%nat (init [PStore; SPush false 7%N; RCas1]) in
+  terminal s /\ uq s = [] /\ log s = [(false, 7%N)].
+Proof.
+  cbv zeta. split; [|vm_compute; split; reflexivity].
+  intros i. destruct i as [|[|[|[|[|[|i]]]]]]; vm_compute; reflexivity.
+Qed.
+
+(** an idle mailbox with a queued user message and the cover thread (the sender before its CAS) *)
+Example C01_ex_wakeup_needed :
+  let s := run [0;0;0]%nat (init [SPush false 1%N]) in
+  reachable s /\ status s = false /\ uq s <> [] /\ paused s = false /\ nth_error (thr s) 0 = Some SCas.
+Proof.
+  cbv zeta. split; [apply reachable_run; reflexivity|].
+  vm_compute. repeat split. discriminate.
+Qed.
+
+(** the quiet regime of [C01_no_spin] with live processors: one processor (thread 2) is at PLoadNum with a
+    stale view (the other, thread 3, is between Pop and Add(-1)); under this schedule they take 18 more steps, 10 of them by thread 2 (bound 22) *)
+Definition ex_quiet : st :=
+  run [0;0;0;0; 2;2;2;2;2;2;2;2;2;2; 1;1;1;1; 3;3;3;3]%nat (init [SPush false 1%N; SPush false 2%N]).
+Example C01_ex_quiet :
+  reachable ex_quiet /\ env_done ex_quiet /\ sq ex_quiet = [] /\ uq ex_quiet = [] /\ processors ex_quiet = 2%nat /\
+  effective_steps [2;2;2;3;3;3;3;3;3;3;3;3;2;2;2;2;2;2;2;2;2]%nat ex_quiet = 18%nat.
+Proof.
+  split; [unfold ex_quiet; apply reachable_run; reflexivity|].
+  split; [|vm_compute; repeat split].
+  intros p Hp. vm_compute in Hp. repeat (destruct Hp as [<-|Hp]; [reflexivity|]). destruct Hp.
+Qed.
+
+Print Assumptions C01_single_consumer.
+Print Assumptions C01_one_owner.
+Print Assumptions C01_one_handler.
+Print Assumptions C01_handler_stays_owner.
+Print Assumptions C01_exactly_once.
+Print Assumptions C01_at_most_once.
+Print Assumptions C01_handled_was_sent.
+Print Assumptions C01_counters.
+Print Assumptions C01_no_lost_wakeup.
+Print Assumptions C01_terminal.
+Print Assumptions C01_resume_drains.
+Print Assumptions C01_terminal_all_handled.
+Print Assumptions C01_no_spin.
